@@ -761,7 +761,8 @@ def check_batch(seed, n_jobs=None):
     n = int(rng.integers(2, 6))
     sps = [mk_snowpack(rng, "b%d" % i) for i in range(n)]
     fr = [float(x) for x in rng.choice(FREQS[1:6], int(rng.integers(2, 4)), replace=False)]
-    th = [float(x) for x in rng.permutation(rng.choice([15., 25., 35., 45., 55., 65.], int(rng.integers(2, 5)), replace=False))]
+    th = sorted(float(x) for x in rng.choice([15., 25., 35., 45., 55., 65.], int(rng.integers(3, 5)), replace=False))
+    th = [th[1], th[0]] + th[2:]          # neither ascending nor descending; the permutation that sorts the cosines is not its own inverse
     sensor = passive(fr, th)
     kind = ["list", "dict", "series"][int(rng.integers(0, 3))]
     labels = [str(x) for x in rng.permutation(["site_%s" % c for c in "ABCDEFG"[:n]])]       # insertion order is not sorted order
